@@ -84,6 +84,8 @@ def ownership_violations(fnode, module=None, nested=False):
                             mutated.setdefault(r, n.lineno)
                     elif isinstance(tt, ast.Name) and not isinstance(n, ast.AugAssign) and getattr(n, "value", None) is not None:
                         bindings.setdefault(tt.id, []).append(n.value if not isinstance(t, (ast.Tuple, ast.List)) else None)
+                    elif isinstance(tt, ast.Name) and isinstance(n, ast.AugAssign) and is_alloc(n.value):
+                        mutated.setdefault(tt.id, n.lineno)         # x += [...]: in-place update of a container
         elif isinstance(n, ast.Call) and isinstance(n.func, ast.Attribute) and n.func.attr in MUTATORS:
             r = root(n.func.value)
             if r and not (isinstance(n.func.value, ast.Name) and n.func.attr in ("get",)):
